@@ -1086,12 +1086,13 @@ expand_manifests(string &expr, bool expand_undefined,
             manifest->extract_args(args, expr, p);
           }
 
-          // Don't consider this manifest when expanding the arguments or
-          // result, to prevent recursion.
+          // Don't consider this manifest when rescanning the result, to
+          // prevent recursion.  The arguments are expanded completely before
+          // they are substituted, so the manifest may be used again in them.
           CPPManifest::Ignores nested_ignores(ignores);
           nested_ignores.insert(manifest);
 
-          string result = manifest->expand(args, expand_undefined, nested_ignores);
+          string result = manifest->expand(args, expand_undefined, ignores);
           expand_manifests(result, expand_undefined, nested_ignores);
 
           expr = expr.substr(0, q) + result + expr.substr(p);
